@@ -41,6 +41,108 @@ BIN_REF = {"+": "fst + snd", "-": "fst + (-1) * snd", "*": "fst * snd", "/": "fs
 UN_REF = {"-": "(-1) * arg", "+": "arg"}
 
 
+REF_EXPR2SYMBOLS = '''
+def expr2symbols(tree):
+    if tree.data in ("expression", "term"):
+        fst = expr2symbols(tree.children[0])
+        for i in range(1, len(tree.children), 2):
+            fst = binary_op(tree.children[i], fst, expr2symbols(tree.children[i + 1]))
+        return fst
+    if tree.data == "factor":
+        return unary_op(tree.children[0], expr2symbols(tree.children[1]))
+    if tree.data == "power":
+        return binary_op("**", expr2symbols(tree.children[0]), expr2symbols(tree.children[1]))
+    if tree.data == "variable":
+        try:
+            return symbols_[str(tree.children[0])]
+        except KeyError as e:
+            raise MissingSymbolError(symbol=str(tree.children[0]), line_no=tree.meta.line) from e
+    if tree.data == "scientific":
+        return sp.sympify(tree.children[0])
+    if tree.data == "constant":
+        if tree.children[0] == "pi":
+            return sp.pi
+    if tree.data == "func":
+        funcname = tree.children[0]
+        if tree.children[0] == "abs":
+            funcname = "Abs"
+        return getattr(sp, funcname)(*[expr2symbols(c) for c in tree.children[1:]])
+    if tree.data == "logicalfunc":
+        if tree.children[0] == "Conditional":
+            return sympytools.Conditional(cond=expr2symbols(tree.children[1]), true_value=expr2symbols(tree.children[2]), false_value=expr2symbols(tree.children[3]))
+        elif tree.children[0] == "ContinuousConditional":
+            rel_op, arg1, arg2 = tree.children[1].children
+            cond = sp.sympify(rel_op.value)(expr2symbols(arg1), expr2symbols(arg2))
+            true_value = expr2symbols(tree.children[2])
+            false_value = expr2symbols(tree.children[3])
+            sigma = expr2symbols(tree.children[4])
+            return sympytools.ContinuousConditional(cond=cond, true_value=true_value, false_value=false_value, sigma=sigma)
+        return getattr(sp, tree.children[0])(*[expr2symbols(c) for c in tree.children[1:]])
+    raise InvalidTreeError(tree=tree)
+'''
+
+REF_REL2PW = '''
+def relational_to_piecewise(expr):
+    if expr.is_Relational:
+        return sp.Piecewise((1, expr), (0, True))
+    return expr
+'''
+
+REF_SORT_ASSIGNMENTS = '''
+def sort_assignments(assignments, assignments_only=True):
+    sorter = TopologicalSorter()
+    assignment_names = set()
+    for assignment in assignments:
+        assignment_names.add(assignment.name)
+        if assignment.value is None:
+            raise exceptions.GotranxError("msg")
+        sorter.add(assignment.name, *sorted(assignment.value.dependencies))
+    static_order = tuple(sorter.static_order())
+    if assignments_only:
+        static_order = tuple([name for name in static_order if name in assignment_names])
+    return static_order
+'''
+
+REF_RESOLVE_EXPRESSIONS = '''
+def resolve_expressions(components, symbols):
+    new_components = []
+    for component in components:
+        assignments = []
+        for assignment in component.assignments:
+            assignments.append(assignment.resolve_expression(symbols))
+        new_components.append(Component(name=component.name, states=component.states, parameters=component.parameters, assignments=frozenset(assignments)))
+    return tuple(new_components)
+'''
+
+REF_ASSIGNMENT_RESOLVE = '''
+def resolve_expression(self, symbols):
+    if self.value is None:
+        raise exceptions.ResolveExpressionError(name=self.name)
+    expr = self.value.resolve(symbols)
+    return type(self)(name=self.name, value=self.value, components=self.components, unit_str=self.unit_str, unit=self.unit, expr=expr, symbol=self.symbol, description=self.description, comment=self.comment)
+'''
+
+REF_DERIVATIVE_RESOLVE = '''
+def resolve_expression(self, symbols):
+    if self.value is None:
+        raise exceptions.ResolveExpressionError(name=self.name)
+    expr = self.value.resolve(symbols)
+    return StateDerivative(name=self.name, value=self.value, components=self.components, unit_str=self.unit_str, unit=self.unit, symbol=self.symbol, expr=expr, state=self.state, description=self.description, comment=self.comment)
+'''
+
+REF_EXPRESSION_RESOLVE = '''
+def resolve(self, symbols):
+    return build_expression(self.tree, symbols=symbols)
+'''
+
+REF_DOPRINT = '''
+def _doprint(self, lhs, rhs, use_variable_prefix=False):
+    if use_variable_prefix:
+        return f"{self.variable_prefix}{self.printer.doprint(Assignment(lhs, rhs))}"
+    return self.printer.doprint(Assignment(lhs, rhs))
+'''
+
+
 def op_table(ctx: Ctx, rule: str, fname: str, ref: dict, operators: list[str]):
     """For each operator literal: specialise the function for that literal (partial evaluation over constants) and
     compare the term it returns with the language definition."""
@@ -83,50 +185,33 @@ def run(ctx: Ctx):
     pow_ops = [l for l in G.rule_literals("power")]
     op_table(ctx, "R01.a", "binary_op", BIN_REF, add_ops + mul_ops + pow_ops)
     op_table(ctx, "R01.a", "unary_op", UN_REF, un_ops)
-    r2p = sm.func("expressions.py", "relational_to_piecewise")
-    rets = [n for n in ast.walk(r2p.node) if isinstance(n, ast.Return)]
-    ev = te.TermEval()
-    rets = sorted(rets, key=lambda r: r.lineno)
-    okr = len(rets) == 2 and ev.ev(rets[0].value) == ("pw", ((te.num(1), te.atom("expr")), (te.num(0), te.atom("True")))) and norm(rets[1].value) == r2p.params[0]
-    conds = [norm(n.test) for n in ast.walk(r2p.node) if isinstance(n, ast.If)]
-    ctx.check(okr and conds == ["expr.is_Relational"], "R01.a", r2p.key("indicator"), "a relational used as a number is Piecewise((1, rel), (0, True))", f"relational_to_piecewise no longer maps a relational operand to Piecewise((1, rel), (0, True)) (returns {[norm(r.value) for r in rets]}, tests {conds})", r2p.where())
+    util.same_as_reference(ctx, "R01.a", "expressions.py", "relational_to_piecewise", REF_REL2PW, "indicator", "a relational used as a number is Piecewise((1, rel), (0, True))", "relational_to_piecewise no longer maps a relational operand to Piecewise((1, rel), (0, True)) and everything else to itself")
 
     # ---- R01.b fold direction ----------------------------------------------------------------------
     ctx.rule("R01.b", "tree folding: expression/term fold left-to-right with the accumulator as first operand; factor applies the sign to its operand; power is base ** exponent", floor=4)
+    from sa import av as _avb
+
     e2 = sm.func("expressions.py", "build_expression.expr2symbols")
-    branches = {}
-    for n in e2.node.body:
-        if isinstance(n, ast.If):
-            branches[norm(n.test)] = n
-    fold = [b for t, b in branches.items() if "'expression'" in t.replace('"', "'") and "'term'" in t.replace('"', "'")]
-    okf = False
-    if fold:
-        b = fold[0]
-        init = [s for s in b.body if isinstance(s, ast.Assign)]
-        loops = [s for s in b.body if isinstance(s, ast.For)]
-        if init and loops:
-            acc = norm(init[0].targets[0])
-            l = loops[0]
-            i = l.target.id if isinstance(l.target, ast.Name) else "?"
-            upd = [s for s in l.body if isinstance(s, ast.Assign) and norm(s.targets[0]) == acc]
-            okf = (
-                norm(init[0].value) == "expr2symbols(tree.children[0])"
-                and norm(l.iter) == "range(1, len(tree.children), 2)"
-                and bool(upd)
-                and isinstance(upd[0].value, ast.Call)
-                and (dotted(upd[0].value.func) or "") == "binary_op"
-                and [norm(a) for a in upd[0].value.args] == [f"tree.children[{i}]", acc, f"expr2symbols(tree.children[{i} + 1])"]
-                and any(isinstance(s, ast.Return) and norm(s.value) == acc for s in b.body)
-            )
-    ctx.check(okf, "R01.b", e2.key("fold"), "acc = binary_op(op_i, acc, operand_{i+1}) for i = 1, 3, 5, ...", "expr2symbols: expression/term children are not folded left-to-right as binary_op(children[i], accumulator, children[i+1]) (associativity or operand order of - and / would change)", e2.where(fold[0]) if fold else e2.where())
-    fac = [b for t, b in branches.items() if t.replace('"', "'") == "tree.data == 'factor'"]
-    okfa = bool(fac) and any(isinstance(s, ast.Return) and norm(s.value) == "unary_op(tree.children[0], expr2symbols(tree.children[1]))" for s in fac[0].body)
-    ctx.check(okfa, "R01.b", e2.key("factor"), "unary_op(sign, operand)", "expr2symbols: factor is not unary_op(children[0], expr2symbols(children[1]))", e2.where())
-    pw = [b for t, b in branches.items() if t.replace('"', "'") == "tree.data == 'power'"]
-    okp = bool(pw) and any(isinstance(s, ast.Return) and norm(s.value).replace('"', "'") == "binary_op('**', expr2symbols(tree.children[0]), expr2symbols(tree.children[1]))" for s in pw[0].body)
-    ctx.check(okp, "R01.b", e2.key("power"), "binary_op('**', base, exponent)", "expr2symbols: power is not binary_op('**', children[0], children[1]) (base and exponent swapped?)", e2.where())
-    last = e2.node.body[-1]
-    ctx.check(isinstance(last, ast.Raise) and "InvalidTreeError" in norm(last), "R01.b", e2.key("unknown-tree"), "unknown tree kinds raise InvalidTreeError", "expr2symbols does not end by raising InvalidTreeError for unknown tree kinds", e2.where())
+    cur_v = util.value_of(ctx, e2)
+    ref_v = util.reference_value(ctx, "expressions.py", "build_expression.expr2symbols", REF_EXPR2SYMBOLS)
+    kt = ("sym", f"{e2.params[0]}.data")
+    cur_cases, ref_cases = util.dispatch_cases(cur_v, kt), util.dispatch_cases(ref_v, kt)
+
+    def case_rule(rule_, kind, key_, ok_msg, fail_msg):
+        c_, r_ = cur_cases.get(kind, cur_cases[None]), ref_cases[kind]
+        vd_ = util.verdict(c_, [r_])
+        if vd_ == "unknown":
+            ctx.undecided(rule_, e2.key(key_), f"what expr2symbols builds for `{kind}` nodes is not understood ({(_avb.find_all(c_, 'unk') or [('', '?')])[0][1]})", e2.where())
+        else:
+            ctx.check(vd_ == "ok", rule_, e2.key(key_), ok_msg, f"{fail_msg} (it builds {_avb.show(c_)[:200]})", e2.where())
+        return c_
+
+    for kind_ in ("expression", "term"):
+        case_rule("R01.b", kind_, "fold" if kind_ == "expression" else "fold-term", "acc = binary_op(op_i, acc, operand_{i+1}) for i = 1, 3, 5, ...", f"expr2symbols: `{kind_}` children are not folded left-to-right as binary_op(children[i], accumulator, children[i+1]) (associativity or operand order of - and / would change)")
+    case_rule("R01.b", "factor", "factor", "unary_op(sign, operand)", "expr2symbols: factor is not unary_op(children[0], expr2symbols(children[1]))")
+    case_rule("R01.b", "power", "power", "binary_op('**', base, exponent)", "expr2symbols: power is not binary_op('**', children[0], children[1]) (base and exponent swapped?)")
+    other = cur_cases[None]
+    ctx.check(other == ("raise", "InvalidTreeError") or (_avb.has_unk(other) and False), "R01.b", e2.key("unknown-tree"), "unknown tree kinds raise InvalidTreeError", f"expr2symbols does not raise InvalidTreeError for unknown tree kinds (it gives {_avb.show(other)[:80]})", e2.where())
 
     # ---- R01.c precedence ladder -------------------------------------------------------------------
     ctx.rule("R01.c", "precedence ladder of ode.lark: additive below multiplicative below unary below **, ** binds its signed right operand (right associative), parentheses restart at expression; leaf rules are not inlined", floor=14)
@@ -151,13 +236,8 @@ def run(ctx: Ctx):
     ctx.rule("R01.d", "function vocabulary: every funcname / logicalfuncname of the grammar is bound to the sympy object with the documented meaning; Conditional / ContinuousConditional bind their children to cond, true, false (, sigma)", floor=26)
     sympy = importlib.import_module("sympy")
     funcs = G.literals_of("funcname")
-    branch_func = [b for t, b in branches.items() if t.replace('"', "'") == "tree.data == 'func'"]
-    ctx.require(branch_func, "expr2symbols: `func` branch not found")
-    bf = branch_func[0]
-    abs_map = any(isinstance(n, ast.If) and norm(n.test).replace('"', "'") == "tree.children[0] == 'abs'" and any(isinstance(s, ast.Assign) and const_str(s.value) == "Abs" for s in n.body) for n in ast.walk(bf))
-    generic = [c for c in ast.walk(bf) if isinstance(c, ast.Call) and isinstance(c.func, ast.Call) and (dotted(c.func.func) or "") == "getattr"]
-    okg = bool(generic) and norm(generic[0].func) == "getattr(sp, funcname)" and norm(generic[0].args[0]) == "*[expr2symbols(c) for c in tree.children[1:]]"
-    ctx.check(okg, "R01.d", e2.key("func-apply"), "getattr(sp, name)(*all arguments)", "expr2symbols: a function call is not built as getattr(sp, funcname)(*[every argument])", e2.where(bf))
+    func_v = case_rule("R01.d", "func", "func-apply", "getattr(sp, name)(*all arguments), abs -> Abs", "expr2symbols: a function call is not built as getattr(sp, funcname)(*[every argument]) with abs mapped to Abs")
+    abs_map = "'Abs' if" in _avb.show(func_v) and "== 'abs'" in _avb.show(func_v)
     for lit in funcs:
         key = f"src/gotranx/ode.lark::funcname::{lit}"
         if lit not in FUNC_MEANING:
@@ -170,9 +250,6 @@ def run(ctx: Ctx):
     missing = [k for k in FUNC_MEANING if k not in funcs]
     ctx.check(not missing, "R01.d", "src/gotranx/ode.lark::funcname::complete", "all documented functions are in the grammar", f"documented functions missing from the grammar: {missing}", "src/gotranx/ode.lark")
     logical = G.literals_of("logicalfuncname")
-    bl = [b for t, b in branches.items() if t.replace('"', "'") == "tree.data == 'logicalfunc'"]
-    ctx.require(bl, "expr2symbols: `logicalfunc` branch not found")
-    bl = bl[0]
     for lit in logical:
         key = f"src/gotranx/ode.lark::logicalfuncname::{lit}"
         if lit in ("Conditional", "ContinuousConditional"):
@@ -181,31 +258,28 @@ def run(ctx: Ctx):
         ok = want is not None and getattr(sympy, lit, None) is getattr(sympy, want)
         ctx.check(ok, "R01.d", key, f"{lit} -> sympy.{want}", f"grammar function `{lit}` resolves to sympy.{lit}, which is not sympy.{want}", "src/gotranx/ode.lark")
     ctx.check(set(LOGICAL_MEANING) | {"Conditional", "ContinuousConditional"} == set(logical), "R01.d", "src/gotranx/ode.lark::logicalfuncname::complete", "logical vocabulary as documented", f"logical function names {sorted(logical)} differ from the documented set", "src/gotranx/ode.lark")
-    generic = [c for c in ast.walk(bl) if isinstance(c, ast.Call) and isinstance(c.func, ast.Call) and (dotted(c.func.func) or "") == "getattr"]
-    okg = bool(generic) and norm(generic[0].func) == "getattr(sp, tree.children[0])" and norm(generic[0].args[0]) == "*[expr2symbols(c) for c in tree.children[1:]]"
-    ctx.check(okg, "R01.d", e2.key("logical-apply"), "getattr(sp, name)(*all arguments)", "expr2symbols: a logical function is not built as getattr(sp, name)(*[every argument]) (operands of And/Or could be dropped)", e2.where(bl))
-    cc = [c for c in ast.walk(bl) if isinstance(c, ast.Call) and (dotted(c.func) or "") == "sympytools.Conditional"]
-    okc = bool(cc) and {k.arg: norm(k.value) for k in cc[0].keywords} == {"cond": "expr2symbols(tree.children[1])", "true_value": "expr2symbols(tree.children[2])", "false_value": "expr2symbols(tree.children[3])"}
-    guard = common.cond_chain(e2.node, [s for s in ast.walk(bl) if isinstance(s, ast.Return) and cc and cc[0] in ast.walk(s)][0]) if cc else []
-    okc = okc and any(c.replace('"', "'") == "tree.children[0] == 'Conditional'" and pol for c, pol in (guard or []))
-    ctx.check(okc, "R01.d", e2.key("Conditional"), "Conditional(cond, true, false) <- children 1, 2, 3", "expr2symbols: Conditional does not bind children 1, 2, 3 to cond, true_value, false_value", e2.where(bl))
-    cc2 = [c for c in ast.walk(bl) if isinstance(c, ast.Call) and (dotted(c.func) or "") == "sympytools.ContinuousConditional"]
-    locs = {norm(n.targets[0]): norm(n.value) for n in ast.walk(bl) if isinstance(n, ast.Assign)}
-    okcc = (
-        bool(cc2)
-        and {k.arg: norm(k.value) for k in cc2[0].keywords} == {"cond": "cond", "true_value": "true_value", "false_value": "false_value", "sigma": "sigma"}
-        and locs.get("true_value") == "expr2symbols(tree.children[2])"
-        and locs.get("false_value") == "expr2symbols(tree.children[3])"
-        and locs.get("sigma") == "expr2symbols(tree.children[4])"
-        and locs.get("cond") == "sp.sympify(rel_op.value)(expr2symbols(arg1), expr2symbols(arg2))"
-        and locs.get("(rel_op, arg1, arg2)") == "tree.children[1].children"
-    )
-    ctx.check(okcc, "R01.d", e2.key("ContinuousConditional"), "ContinuousConditional(rel(arg1, arg2), true, false, sigma) <- children 1..4", f"expr2symbols: ContinuousConditional bindings are {locs}", e2.where(bl))
-    bc = [b for t, b in branches.items() if t.replace('"', "'") == "tree.data == 'constant'"]
-    okpi = bool(bc) and any(isinstance(n, ast.If) and norm(n.test).replace('"', "'") == "tree.children[0] == 'pi'" and any(isinstance(s, ast.Return) and norm(s.value) == "sp.pi" for s in n.body) for n in ast.walk(bc[0]))
-    ctx.check(okpi and G.terms["PI"]["shape"] == '"pi"', "R01.d", e2.key("pi"), "`pi` (exactly) is the constant", f"the constant pi is recognised as {G.terms['PI']['shape']} / by another test than `tree.children[0] == 'pi'`: identifiers such as Pi or PI could be captured by the constant", e2.where())
-    bs = [b for t, b in branches.items() if t.replace('"', "'") == "tree.data == 'scientific'"]
-    ctx.check(bool(bs) and any(isinstance(s, ast.Return) and norm(s.value) == "sp.sympify(tree.children[0])" for s in bs[0].body), "R01.d", e2.key("number"), "numbers are sympified literally", "expr2symbols: a number literal is not sp.sympify(token)", e2.where())
+    lk = ("sub", ("sym", f"{e2.params[0]}.children"), _avb.C(0))
+    cur_l = util.dispatch_cases(cur_cases.get("logicalfunc", cur_cases[None]), lk)
+    ref_l = util.dispatch_cases(ref_cases["logicalfunc"], lk)
+    for nm_, key_, okm_, badm_ in (
+        (None, "logical-apply", "getattr(sp, name)(*all arguments)", "expr2symbols: a logical function is not built as getattr(sp, name)(*[every argument]) (operands of And/Or could be dropped)"),
+        ("Conditional", "Conditional", "Conditional(cond, true, false) <- children 1, 2, 3", "expr2symbols: Conditional does not bind children 1, 2, 3 to cond, true_value, false_value"),
+        ("ContinuousConditional", "ContinuousConditional", "ContinuousConditional(rel(arg1, arg2), true, false, sigma) <- children 1..4", "expr2symbols: ContinuousConditional does not bind rel(arg1, arg2), children 2, 3, 4 to cond, true_value, false_value, sigma"),
+    ):
+        c_, r_ = cur_l.get(nm_, cur_l[None]), ref_l.get(nm_, ref_l[None])
+        vd_ = util.verdict(c_, [r_])
+        if vd_ == "unknown":
+            ctx.undecided("R01.d", e2.key(key_), f"what expr2symbols builds for {nm_ or 'other logical functions'} is not understood", e2.where())
+        else:
+            ctx.check(vd_ == "ok", "R01.d", e2.key(key_), okm_, f"{badm_} (it builds {_avb.show(c_)[:200]})", e2.where())
+    pi_v = cur_cases.get("constant", cur_cases[None])
+    vd_ = util.verdict(pi_v, [ref_cases["constant"]])
+    if vd_ == "unknown":
+        ctx.undecided("R01.d", e2.key("pi"), "what expr2symbols builds for constants is not understood", e2.where())
+    else:
+        ctx.check(vd_ == "ok" and G.terms["PI"]["shape"] == '"pi"', "R01.d", e2.key("pi"), "`pi` (exactly) is the constant", f"the constant pi is recognised as {G.terms['PI']['shape']} / built as {_avb.show(pi_v)[:100]}: identifiers such as Pi or PI could become the constant, or pi another value", e2.where())
+    case_rule("R01.d", "scientific", "number", "numbers are sympified literally", "expr2symbols: a number literal is not sp.sympify(token)")
+    case_rule("R01.d", "variable", "variable", "a name is looked up in the model's symbol table", "expr2symbols: a variable is not symbols_[its name]")
 
     # ---- R01.e conditional builders --------------------------------------------------------------------
     ctx.rule("R01.e", "Conditional -> Piecewise((true, cond), (false, True)); ContinuousConditional -> sigmoid blend with the weights on the right sides", floor=4)
@@ -294,19 +368,7 @@ def run(ctx: Ctx):
             item_ok = len(inner[3]) == 1 and inner[3][0] in (_avf.mk_s((("h", first),)), first, ("attr", first, "value"))
             okd = it_ok and cond_ok and item_ok
         ctx.check(okd, "R01.f", fd.key("complete"), "every `variable` subtree is a dependency", f"Expression._find_dependencies collects {_avf.show(fv)[:140]}, not the name of every `variable` node of the expression tree (a used name could be missing from the dependency graph and be defined after its use)", fd.where())
-    sa = sm.func("ode.py", "sort_assignments")
-    adds = [c for c in ast.walk(sa.node) if isinstance(c, ast.Call) and norm(c.func) == "sorter.add"]
-    oka = bool(adds) and len(adds[0].args) == 2 and norm(adds[0].args[0]).endswith(".name") and isinstance(adds[0].args[1], ast.Starred)
-    if oka:
-        av = norm(adds[0].args[0]).split(".")[0]
-        star = adds[0].args[1].value
-        srcs = {norm(star)}
-        for nm in [x.id for x in ast.walk(star) if isinstance(x, ast.Name)]:
-            srcs |= {norm(a.value) for a in ast.walk(sa.node) if isinstance(a, (ast.Assign, ast.AnnAssign)) and a.value is not None and any(isinstance(t, ast.Name) and t.id == nm for t in (a.targets if isinstance(a, ast.Assign) else [a.target]))}
-        oka = any(f"{av}.value.dependencies" in s_ for s_ in srcs)
-    so = any(isinstance(c, ast.Call) and norm(c.func) == "sorter.static_order" for c in ast.walk(sa.node))
-    ctx.check(oka and so, "R01.f", sa.key("node-predecessors"), "sorter.add(name, *dependencies of that assignment); static_order()", "sort_assignments does not feed graphlib with (assignment name, *its own dependencies) or does not use static_order(): definitions could be printed after their use", sa.where())
-
+    util.same_as_reference(ctx, "R01.f", "ode.py", "sort_assignments", REF_SORT_ASSIGNMENTS, "node-predecessors", "sorter.add(name, *sorted dependencies of that assignment) for every assignment; static_order(); optional filter to assignment names", "sort_assignments does not feed graphlib with (assignment name, *its own sorted dependencies) for every assignment and return static_order() (filtered to the assignments): definitions could be printed after their use")
     cg = util.nf(ctx, "codegen/base.py", "CodeGenerator.rhs")
     loops = [n for n in ast.walk(cg.node) if isinstance(n, ast.For) and "sorted_assignments" in util.ctext(cg, n.iter) and isinstance(n.target, ast.Name)]
     okr = False
@@ -477,14 +539,7 @@ def check_where_nesting(ctx: Ctx, rule: str, f):
 def assembly(ctx: Ctx, rule: str):
     """R01.j: every assignment's expression is built from its own tree with the model-wide symbol table and reaches rhs unmodified."""
     sm = ctx.sm
-    rx = sm.func("ode.py", "resolve_expressions")
-    loops = [n for n in ast.walk(rx.node) if isinstance(n, ast.For)]
-    ok = len(loops) == 2 and norm(loops[0].iter) == rx.params[0] and norm(loops[1].iter) == f"{loops[0].target.id}.assignments" and not any(isinstance(n, (ast.If, ast.Continue, ast.Break)) for n in ast.walk(loops[0]))
-    app = [c for c in ast.walk(rx.node) if isinstance(c, ast.Call) and norm(c.func) == "assignments.append"]
-    ok = ok and bool(app) and norm(app[0].args[0]) == f"{loops[1].target.id}.resolve_expression({rx.params[1]})" if loops and len(loops) == 2 else False
-    comp = [c for c in ast.walk(rx.node) if isinstance(c, ast.Call) and norm(c.func) == "Component"]
-    okc = bool(comp) and {k.arg: norm(k.value) for k in comp[0].keywords} == {"name": "component.name", "states": "component.states", "parameters": "component.parameters", "assignments": "frozenset(assignments)"}
-    ctx.check(ok and okc, rule, rx.key("all-assignments"), "every assignment of every component is resolved with the model-wide symbols", "resolve_expressions does not resolve every assignment of every component (or rebuilds the component from something else)", rx.where())
+    util.same_as_reference(ctx, rule, "ode.py", "resolve_expressions", REF_RESOLVE_EXPRESSIONS, "all-assignments", "every assignment of every component is resolved with the model-wide symbols", "resolve_expressions does not resolve every assignment of every component (or rebuilds the component from something else)")
     from sa import av as _avm
 
     from . import odemodel
@@ -503,15 +558,9 @@ def assembly(ctx: Ctx, rule: str):
             base, _extra = odemodel.setitem_chain(passed) if passed is not None else (None, {})
             okm = comps == ("sym", "components") and base is not None and odemodel.field_of(base, 2) is not None
         ctx.check(okm, rule, mo.key("symbol-table"), "symbols of all components (gather_atoms) are used to resolve", "make_ode does not resolve the expressions of the given components with the symbol table gathered from all components", mo.where())
-    for cls in ("Assignment", "StateDerivative"):
-        f = sm.func("atoms.py", f"{cls}.resolve_expression")
-        ex = [n for n in ast.walk(f.node) if isinstance(n, ast.Assign) and norm(n.targets[0]) == "expr"]
-        ret = [c for n in ast.walk(f.node) if isinstance(n, ast.Return) and isinstance(n.value, ast.Call) for c in [n.value]]
-        okr = bool(ex) and norm(ex[0].value) == f"self.value.resolve({f.params[1]})" and bool(ret) and norm(call_kw(ret[0], "expr")) == "expr" and norm(call_kw(ret[0], "name")) == "self.name" and norm(call_kw(ret[0], "symbol")) == "self.symbol"
-        ctx.check(okr, rule, f.key("own-tree"), "expr = own tree resolved; name and symbol kept", f"{cls}.resolve_expression does not build the new atom from its own resolved tree", f.where())
-    er = sm.func("atoms.py", "Expression.resolve")
-    rets = [norm(n.value) for n in ast.walk(er.node) if isinstance(n, ast.Return)]
-    ctx.check(rets == ["build_expression(self.tree, symbols=symbols)"], rule, er.key(), "build_expression(self.tree, symbols)", f"Expression.resolve returns {rets}", er.where())
+    for cls, ref_ in (("Assignment", REF_ASSIGNMENT_RESOLVE), ("StateDerivative", REF_DERIVATIVE_RESOLVE)):
+        util.same_as_reference(ctx, rule, "atoms.py", f"{cls}.resolve_expression", ref_, "own-tree", "expr = own tree resolved; every other field kept", f"{cls}.resolve_expression does not build the new atom from its own resolved tree with all other fields kept")
+    util.same_as_reference(ctx, rule, "atoms.py", "Expression.resolve", REF_EXPRESSION_RESOLVE, "", "build_expression(self.tree, symbols)", "Expression.resolve is not build_expression(self.tree, symbols=symbols)")
     from sa import av as _av
 
 
@@ -526,11 +575,15 @@ def assembly(ctx: Ctx, rule: str):
     if sk is not None:
         last = [ln.strip() for ln in sk.raw.splitlines() if ln.strip()][-1]
         ctx.check(last == "return {return_name}", rule, mt.key("return"), "return <result array>", f"python method template ends with `{last}` (by default), not with `return <result array>`", mt.where())
-    dp = sm.func("codegen/base.py", "CodeGenerator._doprint")
-    rets = [norm(n.value) for n in ast.walk(dp.node) if isinstance(n, ast.Return)]
-    okd = "self.printer.doprint(Assignment(lhs, rhs))" in rets and any(fstring_skeleton(n.value) == "{self.variable_prefix}{self.printer.doprint(Assignment(lhs, rhs))}" for n in ast.walk(dp.node) if isinstance(n, ast.Return))
-    ctx.check(okd, rule, dp.key(), "lhs = rhs printed by the backend printer", f"CodeGenerator._doprint returns {rets}", dp.where())
+    util.same_as_reference(ctx, rule, "codegen/base.py", "CodeGenerator._doprint", REF_DOPRINT, "", "lhs = rhs printed by the backend printer", "CodeGenerator._doprint does not return the backend printer's text of Assignment(lhs, rhs) (with the variable prefix when asked)")
     gc = sm.func("cli/gotran2py.py", "get_code")
-    lst = [n for n in ast.walk(gc.node) if isinstance(n, ast.List) and any(norm(e) == "codegen.rhs()" for e in n.elts)]
-    okg = bool(lst) and norm(lst[0].elts[0]) == "codegen.imports()" and {"codegen.state_index()", "codegen.parameter_index()", "codegen.initial_state_values()", "codegen.initial_parameter_values()", "codegen.rhs()", "codegen.monitor_values()"} <= {norm(e) for e in lst[0].elts}
-    ctx.check(okg, rule, gc.key("module-parts"), "imports first; index, init, rhs and monitor functions are all emitted", "gotran2py.get_code no longer assembles imports, index/init functions, rhs and monitor_values", gc.where())
+    gv = util.value_of(ctx, gc)
+    parts = [c[2] for c in _av.find_all(gv, "mcall") if c[1][0] == "call" and c[1][1].endswith("CodeGenerator") or (c[1][0] == "if")]
+    joins = [x for x in _av.find_all(gv, "join") if "imports" in _av.show(x)[:400]]
+    if not joins:
+        ctx.undecided(rule, gc.key("module-parts"), "how gotran2py.get_code assembles the module is not understood", gc.where())
+    else:
+        seq = joins[0][2]
+        names = [i[2] if i[0] == "mcall" else None for i in (seq[1] if seq[0] == "list" else ())]
+        okg = bool(names) and names[0] == "imports" and {"state_index", "parameter_index", "initial_state_values", "initial_parameter_values", "rhs", "monitor_values"} <= {n_ for n_ in names if n_}
+        ctx.check(okg, rule, gc.key("module-parts"), "imports first; index, init, rhs and monitor functions are all emitted", f"gotran2py.get_code assembles {names}: not imports first followed by the index, init, rhs and monitor functions", gc.where())
